@@ -433,6 +433,11 @@ def handle (j : Json) : Except String Json := do
     | f => throw s!"bad sequence operation {f}"
   | "fv_lstr" => pure (okJ (strJ (← getFV j "v").localizedString))
   | "fv_lfrac" => pure (okJ (strJ (← getFV j "v").localizedFraction))
+  | "fv_lparse" =>
+    let cl := match j.getObjVal? "cl" with
+      | .ok (.bool b) => b
+      | _ => true
+    pure (outFV (parseWith cl (← getFV j "v").localizedString))
   | _ => throw s!"unknown op {op}"
 
 def step (j : Json) : Json :=
